@@ -116,7 +116,7 @@ def gen(repo):
     lsn = " ".join(ls.split())
     canonical_only = "e.depth() == 2" in lsn and re.search(
         r"e\.path\(\)\.parent\(\)\.and_then\(Path::file_name\)\.and_then\(\|d\| d\.to_str\(\)\) == e\.file_name\(\)\.to_str\(\)\.map\(\|c\| &c\[0\.\.2\]\)", lsn) is not None
-    if ("depth()" in lsn or "parent()" in lsn) and not canonical_only:
+    if ("e.depth()" in lsn or "e.path()" in lsn) and not canonical_only:
         raise ExtractError("Cache::list_with_size: location filter has an unrecognised shape")
     wc = fn_body(cache, "write_bytes")
     if '"-tmp-"' not in wc or "fs::rename(&filename_tmp, &filename)" not in wc:
